@@ -300,8 +300,8 @@ func concAPI(c *ctx, shard *int) {
 	r := c.r
 	type job struct {
 		seed, msg, sig, pub, xs, xu, xout []byte
-		sc                              []byte
-		mulb                            []byte
+		sc                                []byte
+		mulb                              []byte
 	}
 	n := 24
 	jobs := make([]job, n)
